@@ -68,3 +68,34 @@ def literal(expr, sym=None, mod=None, resolve_consts=True):
     if isinstance(expr, ast.Lambda):
         return Sym('<lambda>')
     raise AnalysisError("table entry %s (%s) is not a literal" % (ast.unparse(expr)[:60], type(expr).__name__))
+
+
+def table_by_execution(sym, mod, name):
+    """Value of module-level `name` after abstractly executing every module-level statement that builds it
+    (the literal, ** unpacking, dict.fromkeys, later .update()/subscript stores). Classes, functions and ast.X stay
+    symbolic (Sym); Python dict aliasing is modelled faithfully because real dicts are used."""
+    from .fdeval import FD, Inconclusive, Raised, module_resolver
+    import ast as _ast
+    env = {}
+    fd = FD(max_steps=200000, resolver=module_resolver(sym, mod, symbolic=lambda n: Sym(n)))
+    seen = False
+    for st in mod.tree.body:
+        mentions = any(isinstance(n, _ast.Name) and n.id == name for n in _ast.walk(st))
+        if not mentions:
+            continue
+        if isinstance(st, (_ast.FunctionDef, _ast.ClassDef, _ast.Import, _ast.ImportFrom)):
+            continue
+        if isinstance(st, _ast.Assign) and any(isinstance(t, _ast.Name) and t.id == name for t in st.targets):
+            seen = True
+        elif not seen:
+            continue
+        elif not isinstance(st, (_ast.Assign, _ast.AugAssign, _ast.Expr, _ast.For)):
+            continue
+        try:
+            fd.stmt(st, env)
+        except (Inconclusive, Raised) as e:
+            raise AnalysisError("table %s: module-level statement at line %d is outside the decidable fragment: %s" % (
+                name, st.lineno, e))
+    if name not in env:
+        raise AnalysisError("anchor vanished: table %s in %s" % (name, mod.relpath))
+    return env[name]
